@@ -7,8 +7,8 @@
 // back.  See DESIGN.md section 5, C12.
 //
 //   PART 0 bmp   1 pnm   2 targa   3 png 8-bit   4 png 16-bit   5 png+pnm sub-byte
-//        6 tiff gray8/rgb8   7 tiff rgba8/16-bit   8 tiff 32-bit int/float   9 tiff rgb32/cmyk8/bgr8
-//        10 tiff sub-byte   11 jpeg
+//        6 tiff gray8/rgb8   7 tiff rgba8/gray16   8 tiff 32-bit int/float   9 tiff rgb32/cmyk8/bgr8
+//        10 tiff sub-byte   11 jpeg   12 tiff rgb16/rgba16
 #ifndef C12_PART
 #error "compile with -DC12_PART=<k>"
 #endif
@@ -24,7 +24,7 @@
 #elif C12_PART == 5
 #include <boost/gil/extension/io/png.hpp>
 #include <boost/gil/extension/io/pnm.hpp>
-#elif C12_PART >= 6 && C12_PART <= 10
+#elif (C12_PART >= 6 && C12_PART <= 10) || C12_PART == 12
 #include <boost/gil/extension/io/tiff.hpp>
 #define C12_TIFF 1
 #elif C12_PART == 11
@@ -336,6 +336,184 @@ static void sweep_bits(opts_t const& o, Info const& info) {
     sweep_bits_org<Tag, Img, Info, B_SUBSAMPLED>(o, info, std::integral_constant<bool, (ORGS & B_SUBSAMPLED) != 0>());
 }
 
+// ---- destination-state independence -------------------------------------------------------------
+// One destination object is reused for a whole sequence of files (descending, ascending, equal and mixed
+// sizes, different contents): after every read it must have exactly the file's dimensions and pixels,
+// whatever it held before.  APIs: read_image (all devices), read_and_convert_image into the same type,
+// read_image into a reused any_image (which may hold another alternative), read_view into view(img) after
+// the image object had other uses.  One case per (format, type, api, order).
+enum { RA_READ_IMAGE = 1, RA_CONVERT = 2, RA_ANY = 4, RA_READ_VIEW = 8 };
+static const char* reuse_api_name(int a) { return a == RA_READ_IMAGE ? "read_image" : a == RA_CONVERT ? "read_and_convert_image" : a == RA_ANY ? "any_image" : "read_view"; }
+struct wh_t { int w, h; };
+static std::vector<wh_t> reuse_sizes(int order, vh::rng& r) {
+    std::vector<wh_t> v;
+    const wh_t desc[] = { { 19, 11 }, { 17, 11 }, { 17, 6 }, { 9, 9 }, { 8, 3 }, { 3, 3 }, { 2, 1 }, { 1, 1 } };
+    int extra = vh::thorough() ? 40 : 8;
+    switch (order) {
+    case 0: v.assign(desc, desc + 8); break;                                              // shrinking
+    case 1: for (int i = 7; i >= 0; --i) v.push_back(desc[i]); break;                     // growing
+    case 2: for (int i = 0; i < 4; ++i) v.push_back({ 7, 5 }); break;                     // equal size, new contents
+    default: {                                                                            // one dimension grows while the other shrinks, then seeded
+        const wh_t m[] = { { 3, 14 }, { 14, 3 }, { 3, 14 }, { 1, 20 }, { 20, 1 }, { 16, 16 }, { 15, 17 }, { 17, 15 } };
+        v.assign(m, m + 8);
+        for (int i = 0; i < extra; ++i) v.push_back({ 1 + (int)r.below(24), 1 + (int)r.below(24) });
+    } }
+    return v;
+}
+static const char* reuse_order_name(int o) { return o == 0 ? "shrinking" : o == 1 ? "growing" : o == 2 ? "equal" : "mixed"; }
+
+template <class Tag, class P, class Info, class AnyImg>
+struct reuse_runner {
+    typedef gil::image<P, false> img_t;
+    opts_t const& o; Info const& info;
+    std::string cls; long n = 0;
+    reuse_runner(opts_t const& o_, Info const& i_) : o(o_), info(i_) {}
+
+    void verdict(img_t const& src, img_t const& got, int w, int h, int step, const char* before) {
+        ++n; vh::evals(1);
+        if (got.width() != w || got.height() != h) {
+            vh::viol("reuse-dims." + cls, vh::cat("step ", step, ": file is ", w, "x", h, ", destination (", before, " before the read) is ", got.width(), "x", got.height(), " after it"));
+            return;
+        }
+        cio::diff_t d = cio::compare_views(gil::const_view(src), gil::const_view(got));
+        if (d.any()) vh::viol("reuse-pixels." + cls, vh::cat("step ", step, " ", w, "x", h, " (destination was ", before, "): ", d.str()));
+    }
+    std::string bytes_of(img_t const& src) {
+        std::stringstream ss(std::ios::in | std::ios::out | std::ios::binary);
+        gil::write_view(ss, gil::const_view(src), info);
+        return ss.str();
+    }
+    struct any_get {
+        typedef void result_type;
+        img_t const* got = nullptr;
+        void operator()(img_t const& g) { got = &g; }
+        template <class Other> void operator()(Other const&) { got = nullptr; }
+    };
+    template <int API> void run_api(int order, std::integral_constant<int, API>) {
+        cls = vh::cat(o.fmt, ".", o.type, ".", reuse_api_name(API), ".", reuse_order_name(order));
+        if (!vh::begin_case(vh::cat("reuse.", o.fmt), cls)) return;
+        vh::rng r = vh::case_rng();
+        std::vector<wh_t> sizes = reuse_sizes(order, r);
+        img_t dst;                     // the one destination object of this sequence
+        AnyImg any;                    // (RA_ANY)
+        if (order == 0 || order == 3) { dst = img_t(23, 21); cio::fill_view(gil::view(dst), r.next(), 0); any = dst; }
+        n = 0;
+        int step = 0;
+        for (wh_t const& q : sizes) {
+            img_t src(q.w, q.h);
+            cio::fill_view(gil::view(src), r.next(), (step % 5 == 4) ? 2 : 0);
+            std::string before = vh::cat(dst.width(), "x", dst.height());
+            try {
+                std::string bytes = bytes_of(src);
+                do_read(bytes, dst, any, q, step, before, r, std::integral_constant<int, API>());
+            } catch (std::exception const& e) {
+                vh::viol("reuse-exception." + cls, vh::cat("step ", step, " ", q.w, "x", q.h, ": ", e.what()));
+            }
+            ++step;
+        }
+        vh::distinct(n);
+        vh::obs(vh::cat("reuse.", reuse_api_name(API)));
+        vh::obs(vh::cat("reuse.order.", reuse_order_name(order)));
+        if (order == 0) vh::sample(vh::cat("reuse ", cls, ": ", n, " reads into one destination object"));
+    }
+    // read_image through the three device kinds in turn
+    void do_read(std::string const& bytes, img_t& dst, AnyImg&, wh_t q, int step, std::string const& before, vh::rng&, std::integral_constant<int, RA_READ_IMAGE>) {
+        int dev = step % 3;
+        if (dev == S_FILE && !use_file_ptr<Tag>::value) dev = S_STREAM;
+        if (dev == S_STREAM) { std::stringstream ss(bytes, std::ios::in | std::ios::binary); gil::read_image(ss, dst, Tag()); }
+        else if (dev == S_FILE) reuse_fileptr(bytes, dst, std::integral_constant<bool, use_file_ptr<Tag>::value>());
+        else { cio::scratch_file sf("c12r", o.ext); if (!cio::spill(sf.path, bytes)) vh::fatal_monitor("harness", "scratch write"); gil::read_image(sf.path, dst, Tag()); }
+        img_t src_again; { std::stringstream ss(bytes, std::ios::in | std::ios::binary); gil::read_image(ss, src_again, Tag()); }   // fresh destination: the reference
+        verdict(src_again, dst, q.w, q.h, step, before.c_str());
+    }
+    void reuse_fileptr(std::string const& bytes, img_t& dst, std::true_type) {
+        std::shared_ptr<membuf> m(new membuf); m->data = bytes;
+        FILE* fp = cio::open_mem_read(m.get());
+        gil::read_image(fp, dst, Tag());
+    }
+    void reuse_fileptr(std::string const&, img_t&, std::false_type) {}
+    void do_read(std::string const& bytes, img_t& dst, AnyImg&, wh_t q, int step, std::string const& before, vh::rng&, std::integral_constant<int, RA_CONVERT>) {
+        { std::stringstream ss(bytes, std::ios::in | std::ios::binary); gil::read_and_convert_image(ss, dst, Tag()); }
+        img_t ref; { std::stringstream ss(bytes, std::ios::in | std::ios::binary); gil::read_and_convert_image(ss, ref, Tag()); }
+        verdict(ref, dst, q.w, q.h, step, before.c_str());
+    }
+    void do_read(std::string const& bytes, img_t&, AnyImg& any, wh_t q, int step, std::string const&, vh::rng&, std::integral_constant<int, RA_ANY>) {
+        any_get g0; boost::variant2::visit(std::ref(g0), any);
+        std::string before = g0.got ? vh::cat("this alternative, ", g0.got->width(), "x", g0.got->height()) : std::string("another alternative");
+        { std::stringstream ss(bytes, std::ios::in | std::ios::binary); gil::read_image(ss, any, Tag()); }
+        img_t ref; { std::stringstream ss(bytes, std::ios::in | std::ios::binary); gil::read_image(ss, ref, Tag()); }
+        any_get g; boost::variant2::visit(std::ref(g), any);
+        if (!g.got) { ++n; vh::evals(1); vh::viol("reuse-alternative." + cls, vh::cat("step ", step, " ", q.w, "x", q.h, ": any_image holds alternative ", (long)any.index(), " after reading a file of this type")); return; }
+        verdict(ref, *g.got, q.w, q.h, step, before.c_str());
+        if (step % 3 == 2) any = AnyImg();          // next read finds the first alternative, default-constructed
+    }
+    void do_read(std::string const& bytes, img_t& dst, AnyImg&, wh_t q, int step, std::string const& before, vh::rng& r, std::integral_constant<int, RA_READ_VIEW>) {
+        // the image object had another life (other sizes, other contents); the user resizes it and reads into its view
+        dst.recreate(q.w, q.h);
+        cio::fill_view(gil::view(dst), r.next(), 0);
+        { std::stringstream ss(bytes, std::ios::in | std::ios::binary); gil::read_view(ss, gil::view(dst), Tag()); }
+        img_t ref; { std::stringstream ss(bytes, std::ios::in | std::ios::binary); gil::read_image(ss, ref, Tag()); }
+        verdict(ref, dst, q.w, q.h, step, before.c_str());
+        // and the next step reads a whole image into it again (read_image, then read_view, alternating)
+        if (step % 2 == 1) { img_t other(q.h + 2, q.w + 1); cio::fill_view(gil::view(other), r.next(), 0);
+                             std::string b2 = bytes_of(other); std::stringstream ss(b2, std::ios::in | std::ios::binary); gil::read_image(ss, dst, Tag()); }
+    }
+    template <int API> void api(std::true_type) { for (int order = 0; order < 4; ++order) run_api(order, std::integral_constant<int, API>()); }
+    template <int API> void api(std::false_type) {}
+};
+// The reference of every step is the same bytes read into a *fresh* destination: what is demanded is
+// independence from the destination's previous state (the round trip itself is judged by the sweeps above),
+// so formats/types with a known round-trip finding do not raise it a second time here.
+template <class Tag, class P, int APIS, class AnyImg, class Info>
+static void reuse_sweep(opts_t const& o, Info const& info) {
+    reuse_runner<Tag, P, Info, AnyImg> rr(o, info);
+    rr.template api<RA_READ_IMAGE>(std::integral_constant<bool, (APIS & RA_READ_IMAGE) != 0>());
+    rr.template api<RA_CONVERT>(std::integral_constant<bool, (APIS & RA_CONVERT) != 0>());
+    rr.template api<RA_ANY>(std::integral_constant<bool, (APIS & RA_ANY) != 0>());
+    rr.template api<RA_READ_VIEW>(std::integral_constant<bool, (APIS & RA_READ_VIEW) != 0>());
+}
+// bit-aligned images: read_image and read_view into a reused image object
+template <class Tag, class Img, class Info>
+static void reuse_bits(opts_t const& o, Info const& info) {
+    typedef typename Img::view_t::value_type P;
+    for (int api = 0; api < 2; ++api)
+    for (int order = 0; order < 4; ++order) {
+        std::string cls = vh::cat(o.fmt, ".", o.type, ".", api == 0 ? "read_image" : "read_view", ".", reuse_order_name(order));
+        if (!vh::begin_case(vh::cat("reuse-subbyte.", o.fmt), cls)) continue;
+        vh::rng r = vh::case_rng();
+        std::vector<wh_t> sizes = reuse_sizes(order, r);
+        Img dst;
+        if (order == 0 || order == 3) { dst = Img(23, 21); cio::fill_view(gil::view(dst), r.next(), 0); }
+        long n = 0; int step = 0;
+        for (wh_t const& q : sizes) {
+            Img src(q.w, q.h); cio::fill_view(gil::view(src), r.next(), 0);
+            std::string before = vh::cat(dst.width(), "x", dst.height());
+            ++n; vh::evals(1);
+            try {
+                std::stringstream ws(std::ios::in | std::ios::out | std::ios::binary);
+                gil::write_view(ws, gil::view(src), info);
+                std::string bytes = ws.str();
+                if (api == 1) { dst.recreate(q.w, q.h); cio::fill_view(gil::view(dst), r.next(), 0); }
+                { std::stringstream ss(bytes, std::ios::in | std::ios::binary);
+                  if (api == 0) gil::read_image(ss, dst, Tag()); else gil::read_view(ss, gil::view(dst), Tag()); }
+                Img ref; { std::stringstream ss(bytes, std::ios::in | std::ios::binary); gil::read_image(ss, ref, Tag()); }
+                if (dst.width() != q.w || dst.height() != q.h) { vh::viol("reuse-dims." + cls, vh::cat("step ", step, ": file is ", q.w, "x", q.h, ", destination (", before, " before) is ", dst.width(), "x", dst.height())); }
+                else {
+                    long bad = 0;
+                    for (int y = 0; y < q.h; ++y) for (int x = 0; x < q.w; ++x) {
+                        uint64_t a[8], b[8]; P pa = gil::const_view(ref)(x, y), pb = gil::const_view(dst)(x, y);
+                        cio::pixel_bits(pa, a); cio::pixel_bits(pb, b); if (a[0] != b[0]) ++bad;
+                    }
+                    if (bad) vh::viol("reuse-pixels." + cls, vh::cat("step ", step, " ", q.w, "x", q.h, " (destination was ", before, "): ", bad, " pixels differ from a read into a fresh image"));
+                }
+            } catch (std::exception const& e) { vh::viol("reuse-exception." + cls, vh::cat("step ", step, " ", q.w, "x", q.h, ": ", e.what())); }
+            ++step;
+        }
+        vh::distinct(n);
+        vh::obs("reuse.bits");
+    }
+}
+
 // =================================================================================================
 #if C12_PART == 0
 static void run_part() {
@@ -348,6 +526,10 @@ static void run_part() {
     o.planar = false;
     o.type = "bgr8"; sweep<gil::bmp_tag, gil::bgr8_pixel_t>(o, info);
     o.type = "argb8"; sweep<gil::bmp_tag, gil::argb8_pixel_t>(o, info);
+    typedef gil::any_image<gil::rgb8_image_t, gil::rgba8_image_t> any_t;
+    o.type = "rgb8"; reuse_sweep<gil::bmp_tag, gil::rgb8_pixel_t, RA_READ_IMAGE | RA_CONVERT | RA_ANY | RA_READ_VIEW, any_t>(o, info);
+    o.type = "rgba8"; reuse_sweep<gil::bmp_tag, gil::rgba8_pixel_t, RA_READ_IMAGE | RA_CONVERT | RA_ANY | RA_READ_VIEW, any_t>(o, info);
+    o.type = "bgr8"; reuse_sweep<gil::bmp_tag, gil::bgr8_pixel_t, RA_READ_IMAGE | RA_READ_VIEW, gil::any_image<gil::bgr8_image_t>>(o, info);
 }
 #elif C12_PART == 1
 static void run_part() {
@@ -358,6 +540,9 @@ static void run_part() {
     o.org_mask = (1u << O_IMG) | (1u << O_SUB) | (1u << O_ROT180);
     o.planar = false;
     o.type = "bgr8"; sweep<gil::pnm_tag, gil::bgr8_pixel_t>(o, info);
+    typedef gil::any_image<gil::gray8_image_t, gil::rgb8_image_t> any_t;
+    o.type = "gray8"; reuse_sweep<gil::pnm_tag, gil::gray8_pixel_t, RA_READ_IMAGE | RA_CONVERT | RA_ANY | RA_READ_VIEW, any_t>(o, info);
+    o.type = "rgb8"; reuse_sweep<gil::pnm_tag, gil::rgb8_pixel_t, RA_READ_IMAGE | RA_CONVERT | RA_ANY | RA_READ_VIEW, any_t>(o, info);
 }
 #elif C12_PART == 2
 static void run_part() {
@@ -369,6 +554,10 @@ static void run_part() {
     o.planar = false;
     o.type = "bgr8"; sweep<gil::targa_tag, gil::bgr8_pixel_t>(o, info);
     o.type = "argb8"; sweep<gil::targa_tag, gil::argb8_pixel_t>(o, info);
+    typedef gil::any_image<gil::rgb8_image_t, gil::rgba8_image_t> any_t;
+    o.type = "rgb8"; reuse_sweep<gil::targa_tag, gil::rgb8_pixel_t, RA_READ_IMAGE | RA_CONVERT | RA_ANY | RA_READ_VIEW, any_t>(o, info);
+    o.type = "rgba8"; reuse_sweep<gil::targa_tag, gil::rgba8_pixel_t, RA_READ_IMAGE | RA_CONVERT | RA_ANY | RA_READ_VIEW, any_t>(o, info);
+    o.type = "argb8"; reuse_sweep<gil::targa_tag, gil::argb8_pixel_t, RA_READ_IMAGE | RA_READ_VIEW, gil::any_image<gil::argb8_image_t>>(o, info);
 }
 #elif C12_PART == 3
 static void run_part() {
@@ -379,6 +568,10 @@ static void run_part() {
     o.planar = true;
     o.type = "rgb8"; sweep<gil::png_tag, gil::rgb8_pixel_t>(o, info);
     o.type = "rgba8"; sweep<gil::png_tag, gil::rgba8_pixel_t>(o, info);
+    typedef gil::any_image<gil::gray8_image_t, gil::rgb8_image_t, gil::rgba8_image_t> any_t;
+    o.type = "gray8"; reuse_sweep<gil::png_tag, gil::gray8_pixel_t, RA_READ_IMAGE | RA_CONVERT | RA_ANY | RA_READ_VIEW, any_t>(o, info);
+    o.type = "rgb8"; reuse_sweep<gil::png_tag, gil::rgb8_pixel_t, RA_READ_IMAGE | RA_CONVERT | RA_ANY | RA_READ_VIEW, any_t>(o, info);
+    o.type = "rgba8"; reuse_sweep<gil::png_tag, gil::rgba8_pixel_t, RA_READ_IMAGE | RA_CONVERT | RA_ANY | RA_READ_VIEW, any_t>(o, info);
 }
 #elif C12_PART == 4
 static void run_part() {
@@ -389,6 +582,10 @@ static void run_part() {
     o.planar = true;
     o.type = "rgb16"; sweep<gil::png_tag, gil::rgb16_pixel_t>(o, info);
     o.type = "rgba16"; sweep<gil::png_tag, gil::rgba16_pixel_t>(o, info);
+    typedef gil::any_image<gil::gray16_image_t, gil::rgb16_image_t, gil::rgba16_image_t> any_t;
+    o.type = "gray16"; reuse_sweep<gil::png_tag, gil::gray16_pixel_t, RA_READ_IMAGE | RA_CONVERT | RA_ANY | RA_READ_VIEW, any_t>(o, info);
+    o.type = "rgb16"; reuse_sweep<gil::png_tag, gil::rgb16_pixel_t, RA_READ_IMAGE | RA_CONVERT | RA_ANY | RA_READ_VIEW, any_t>(o, info);
+    o.type = "rgba16"; reuse_sweep<gil::png_tag, gil::rgba16_pixel_t, RA_READ_IMAGE | RA_CONVERT | RA_ANY | RA_READ_VIEW, any_t>(o, info);
 }
 #elif C12_PART == 5
 static void run_part() {
@@ -400,6 +597,9 @@ static void run_part() {
         o.type = "gray1"; o.bits = 1; sweep_bits<gil::png_tag, gil::gray1_image_t, orgs>(o, info);
         o.type = "gray2"; o.bits = 2; sweep_bits<gil::png_tag, gil::gray2_image_t, orgs>(o, info);
         o.type = "gray4"; o.bits = 4; sweep_bits<gil::png_tag, gil::gray4_image_t, orgs>(o, info);
+        o.type = "gray1"; reuse_bits<gil::png_tag, gil::gray1_image_t>(o, info);
+        o.type = "gray2"; reuse_bits<gil::png_tag, gil::gray2_image_t>(o, info);
+        o.type = "gray4"; reuse_bits<gil::png_tag, gil::gray4_image_t>(o, info);
     }
     {
         gil::image_write_info<gil::pnm_tag> info;
@@ -444,6 +644,18 @@ template <class P> static void tiff_type(const char* type, bool planar, unsigned
         vh::obs(vh::cat("tiffcfg.", cfgs[i].name));
     }
 }
+// destination reuse on TIFF: uncompressed strips, LZW strips and 16x16 tiles
+template <class P, int APIS, class AnyImg> static void tiff_reuse(const char* type) {
+    struct { const char* name; bool tiled; int comp; } cf[] = { { "strip-none", false, COMPRESSION_NONE }, { "strip-lzw", false, COMPRESSION_LZW }, { "tile16-none", true, COMPRESSION_NONE } };
+    for (auto& c : cf) {
+        if (!TIFFIsCODECConfigured((uint16_t)c.comp)) continue;
+        gil::image_write_info<gil::tiff_tag> info;
+        info._compression = c.comp; info._is_tiled = c.tiled; info._tile_width = info._tile_length = 16;
+        std::string tn = vh::cat(type, "-", c.name);
+        opts_t o; o.fmt = "tiff"; o.ext = "tif"; o.type = tn.c_str();
+        reuse_sweep<gil::tiff_tag, P, APIS, AnyImg>(o, info);
+    }
+}
 template <class Img> static void tiff_bits_type(const char* type, int bits) {
     std::vector<tiff_cfg> const& cfgs = tiff_cfgs();
     for (size_t i = 0; i < cfgs.size(); ++i) {
@@ -463,14 +675,27 @@ static void run_part() {
     unsigned base = (1u << O_IMG) | (1u << O_RAWPAD) | (1u << O_SUB) | (1u << O_ROT180) | (1u << O_SUBSAMPLED) | (1u << O_PLANAR) | (1u << O_PLANAR_STEP);
     tiff_type<gil::gray8_pixel_t>("gray8", false, base | (1u << O_CONST) | (1u << O_ROT90), true);
     tiff_type<gil::rgb8_pixel_t>("rgb8", true, base | (1u << O_CONST) | (1u << O_ROT90), true);
+    typedef gil::any_image<gil::gray8_image_t, gil::rgb8_image_t> any_t;
+    tiff_reuse<gil::gray8_pixel_t, RA_READ_IMAGE | RA_CONVERT | RA_ANY | RA_READ_VIEW, any_t>("gray8");
+    tiff_reuse<gil::rgb8_pixel_t, RA_READ_IMAGE | RA_ANY | RA_READ_VIEW, any_t>("rgb8");
 }
 #elif C12_PART == 7
 static void run_part() {
     unsigned base = (1u << O_IMG) | (1u << O_RAWPAD) | (1u << O_SUB) | (1u << O_ROT180) | (1u << O_SUBSAMPLED) | (1u << O_PLANAR) | (1u << O_PLANAR_STEP);
     tiff_type<gil::rgba8_pixel_t>("rgba8", true, base, false);
     tiff_type<gil::gray16_pixel_t>("gray16", false, base, true);
+    typedef gil::any_image<gil::gray16_image_t, gil::rgba8_image_t> any_t;
+    tiff_reuse<gil::rgba8_pixel_t, RA_READ_IMAGE | RA_ANY | RA_READ_VIEW, any_t>("rgba8");
+    tiff_reuse<gil::gray16_pixel_t, RA_READ_IMAGE | RA_ANY | RA_READ_VIEW, any_t>("gray16");
+}
+#elif C12_PART == 12
+static void run_part() {
+    unsigned base = (1u << O_IMG) | (1u << O_RAWPAD) | (1u << O_SUB) | (1u << O_ROT180) | (1u << O_SUBSAMPLED) | (1u << O_PLANAR) | (1u << O_PLANAR_STEP);
     tiff_type<gil::rgb16_pixel_t>("rgb16", true, base, false);
     tiff_type<gil::rgba16_pixel_t>("rgba16", true, base, false);
+    typedef gil::any_image<gil::rgb16_image_t, gil::rgba16_image_t> any_t;
+    tiff_reuse<gil::rgb16_pixel_t, RA_READ_IMAGE | RA_ANY | RA_READ_VIEW, any_t>("rgb16");
+    tiff_reuse<gil::rgba16_pixel_t, RA_READ_IMAGE | RA_READ_VIEW, any_t>("rgba16");
 }
 #elif C12_PART == 8
 static void run_part() {
@@ -478,6 +703,10 @@ static void run_part() {
     tiff_type<gil::gray32_pixel_t>("gray32", false, base, false);
     tiff_type<gil::gray32f_pixel_t>("gray32f", false, base, true);
     tiff_type<gil::rgb32f_pixel_t>("rgb32f", true, base, false);
+    typedef gil::any_image<gil::gray32_image_t, gil::gray32f_image_t, gil::rgb32f_image_t> any_t;
+    tiff_reuse<gil::gray32_pixel_t, RA_READ_IMAGE | RA_ANY | RA_READ_VIEW, any_t>("gray32");
+    tiff_reuse<gil::gray32f_pixel_t, RA_READ_IMAGE | RA_CONVERT | RA_ANY | RA_READ_VIEW, any_t>("gray32f");
+    tiff_reuse<gil::rgb32f_pixel_t, RA_READ_IMAGE | RA_ANY | RA_READ_VIEW, any_t>("rgb32f");
 }
 #elif C12_PART == 9
 static void run_part() {
@@ -485,12 +714,23 @@ static void run_part() {
     tiff_type<gil::rgb32_pixel_t>("rgb32", true, base, false);
     tiff_type<gil::cmyk8_pixel_t>("cmyk8", true, base, false);
     tiff_type<gil::bgr8_pixel_t>("bgr8", false, (1u << O_IMG) | (1u << O_SUBSAMPLED), false);
+    typedef gil::any_image<gil::rgb32_image_t, gil::cmyk8_image_t> any_t;
+    tiff_reuse<gil::rgb32_pixel_t, RA_READ_IMAGE | RA_ANY | RA_READ_VIEW, any_t>("rgb32");
+    tiff_reuse<gil::cmyk8_pixel_t, RA_READ_IMAGE | RA_ANY | RA_READ_VIEW, any_t>("cmyk8");
+    tiff_reuse<gil::bgr8_pixel_t, RA_READ_IMAGE | RA_READ_VIEW, gil::any_image<gil::bgr8_image_t>>("bgr8");
 }
 #elif C12_PART == 10
 static void run_part() {
     tiff_bits_type<gil::gray1_image_t>("gray1", 1);
     tiff_bits_type<gil::gray2_image_t>("gray2", 2);
     tiff_bits_type<gil::gray4_image_t>("gray4", 4);
+    {
+        gil::image_write_info<gil::tiff_tag> info;
+        opts_t o; o.fmt = "tiff"; o.ext = "tif";
+        o.type = "gray1"; reuse_bits<gil::tiff_tag, gil::gray1_image_t>(o, info);
+        o.type = "gray2"; reuse_bits<gil::tiff_tag, gil::gray2_image_t>(o, info);
+        o.type = "gray4"; reuse_bits<gil::tiff_tag, gil::gray4_image_t>(o, info);
+    }
 }
 #endif
 
@@ -565,6 +805,15 @@ static void run_part() {
     jpeg_type<gil::gray8_pixel_t>("gray8", C12_JPEG_BOUND_GRAY);
     jpeg_type<gil::rgb8_pixel_t>("rgb8", C12_JPEG_BOUND_COLOR);
     jpeg_type<gil::cmyk8_pixel_t>("cmyk8", C12_JPEG_BOUND_GRAY);
+    {
+        // decoding is deterministic: a reused destination must equal a fresh one exactly
+        typedef gil::any_image<gil::gray8_image_t, gil::rgb8_image_t, gil::cmyk8_image_t> any_t;
+        gil::image_write_info<gil::jpeg_tag> info(100);
+        opts_t o; o.fmt = "jpeg"; o.ext = "jpg";
+        o.type = "gray8"; reuse_sweep<gil::jpeg_tag, gil::gray8_pixel_t, RA_READ_IMAGE | RA_CONVERT | RA_ANY | RA_READ_VIEW, any_t>(o, info);
+        o.type = "rgb8"; reuse_sweep<gil::jpeg_tag, gil::rgb8_pixel_t, RA_READ_IMAGE | RA_CONVERT | RA_ANY | RA_READ_VIEW, any_t>(o, info);
+        o.type = "cmyk8"; reuse_sweep<gil::jpeg_tag, gil::cmyk8_pixel_t, RA_READ_IMAGE | RA_CONVERT | RA_ANY | RA_READ_VIEW, any_t>(o, info);
+    }
 }
 #endif
 
